@@ -153,5 +153,44 @@ fn vx_project_old<'a>(m: &'a MapRefS, o: Option<&'a DynValue>) -> (r: Option<&'a
     ensures r == (match o { Some(v) => Some(projected(m, v)), None => None::<&DynValue> }),
 { unimplemented!() }
 
+// ---- Node::child_changed, map_ref arm, second half: the change is forwarded to every parent with the index this node
+//      has *in that parent* (an expert parent picks the edge callback by it) and the old projection ----------------------
+#[verifier::external_body]
+pub struct WeakParent { _p: u8 }
+#[verifier::external_body]
+pub struct ParentRef { _p: u8 }
+pub uninterp spec fn weak_parent_target(w: &WeakParent) -> Option<Rc<ParentRef>>;
+pub uninterp spec fn may_forward(child_index: i32, old: Option<&DynValue>) -> bool;
+impl WeakParent {
+    #[verifier::external_body]
+    pub fn upgrade(&self) -> (r: Option<Rc<ParentRef>>) ensures r == weak_parent_target(self) { unimplemented!() }
+}
+pub struct Pci { pub my_child_index_in_parent_at_index: Vec<i32> }
+pub struct MapRefSelf { pub _p: u8 }
+impl ParentRef {
+    #[verifier::external_body]
+    pub fn child_changed(&self, child: &MapRefSelf, child_index: i32, old_value_opt: Option<&DynValue>) -> (r: Result<(), ParentError>)
+        requires may_forward(child_index, old_value_opt),
+    { unimplemented!() }
+}
+impl MapRefSelf {
+//@extract loopbody Node::child_changed@map_ref/each-parent
+//@ file: src/node.rs
+//@ impl: impl ErasedNode for Node
+//@ name: child_changed
+//@ loop_containing: `\.\s*child_changed\(`
+//@ tail: `Ok(())`
+//@ as: fn child_changed__map_ref_each_parent(&self, vx_item: (usize, &WeakParent), pci: &Pci, self_old: Option<&DynValue>, child: &ChildNode, child_index: i32, old_value_opt: Option<&DynValue>) -> (r: Result<(), ParentError>)
+//@ props: C06 C14
+//@ must_call a-live-parent-is-told-of-the-change: `\.\s*child_changed\(` when `weak_parent_target(vx_item.1) is Some`
+//@ contract:
+//@|     requires
+//@|         vx_item.0 < pci.my_child_index_in_parent_at_index@.len(),
+//@|         forall|i: i32, o: Option<&DynValue>| #![trigger may_forward(i, o)] may_forward(i, o) <==> (i == pci.my_child_index_in_parent_at_index@[vx_item.0 as int] && o == self_old),
+//@|     // [each-parent-is-told-with-this-nodes-index-in-that-parent-and-the-old-projection]  (the enclosing function's own
+//@|     //  parameters - the index of the *child* in this node, the child's old value - are in scope and must not be what is forwarded)
+//@end
+}
+
 } // verus!
 fn main() {}
